@@ -32,6 +32,7 @@ type Case struct {
 	Instances int     `json:"instances"`
 	Passes    int     `json:"passes"`
 	Answer    string  `json:"target_answer"` // small | empty | 5k | 100k | chunked | chunked_big
+	Connect   bool    `json:"connect_gun"`   // gun type connect (CONNECT tunnel to the target first) instead of http
 }
 
 var cfgHeaderNames = []string{"X-Test", "Accept", "User-Agent", "Cookie", "X-Cfg-Only", "Authorization", "X-Other-Cfg", "Referer"}
@@ -71,6 +72,7 @@ func genCase(t *rapid.T) Case {
 	c.NoKeep = rapid.IntRange(0, 3).Draw(t, "noKeepAlive") == 0
 	c.Instances = rapid.IntRange(1, 4).Draw(t, "instances")
 	c.Passes = rapid.IntRange(1, 2).Draw(t, "passes")
+	c.Connect = !c.SSL && rapid.IntRange(0, 3).Draw(t, "connectGun") == 0
 	// what the target answers: the gun must drain any answer to keep its connection
 	c.Answer = rapid.SampledFrom([]string{"small", "small", "empty", "5k", "100k", "chunked", "chunked_big"}).Draw(t, "answer")
 	return c
@@ -183,6 +185,9 @@ func check(c Case, o *vf.Obs) error {
 		ammo["headers"] = hs
 	}
 	gun := map[string]any{"type": "http", "target": tg.Addr(), "ssl": c.SSL}
+	if c.Connect {
+		gun["type"] = "connect"
+	}
 	if c.NoKeep {
 		gun["disable-keep-alives"] = true
 	}
@@ -273,6 +278,10 @@ func check(c Case, o *vf.Obs) error {
 	o.Class("format_" + c.File.Format)
 	o.ClassIf(c.File.Big, "file_larger_than_reader_buffer")
 	o.Class("answer_" + c.Answer)
+	o.ClassIf(c.Connect, "connect_gun")
+	if c.Connect && tg.Connects() == 0 {
+		return fmt.Errorf("connect gun: requests arrived but no CONNECT tunnel was opened")
+	}
 	o.ClassIf(!c.NoKeep && (c.Answer == "100k" || c.Answer == "chunked" || c.Answer == "chunked_big" || c.Answer == "5k"), "keep_alive_with_multi_read_answer")
 	o.ClassIf(overlap, "config_header_overlaps_ammo")
 	o.ClassIf(overlap, "overlap_"+c.File.Format)
